@@ -1228,6 +1228,7 @@ Section Explain.
     intros lk H. unfold gpos_lookup_wf_all in H. repeat (apply orb_true_iff in H; destruct H as [H|H]).
     - apply gpos_lookup_subs; auto.
     - apply gpos3_lookup_subs; auto.
+    - apply gpos4_lookup_subs; auto.
   Qed.
 
   Lemma lex_explain_gpos_all : forall ll, Forall (fun lk => gpos_lookup_wf_all F lk = true) ll ->
